@@ -905,4 +905,4 @@ SUITES = [QuoteSuite(), ShLineSuite(), TtySuite(), InitSuite(), ExecSuite(), Slo
 def extra_obligations(tier):
     """the translated part of the model: regenerated from the current source and re-proved equal to what the theorems use"""
     from vlib import gen
-    return gen.obligations(only=["gen_blacklists_are_the_model", "gen_prompts_are_the_model", "gen_probe_and_sanity_are_the_model", "gen_probe_loop_is_the_model", "gen_init_lines_are_the_model", "gen_status_command_is_the_model"])
+    return gen.obligations(only=["gen_blacklists_are_the_model", "gen_prompts_are_the_model", "gen_probe_and_sanity_are_the_model", "gen_probe_loop_is_the_model", "gen_init_lines_are_the_model", "gen_status_command_is_the_model", "gen_exec0_and_test_are_the_model"])
